@@ -22,5 +22,6 @@ Definition run_c17 (l : list Z) : list Z :=
   | 6 :: w :: h :: rest => rest
   | 5 :: _ => [-9]
   | 8 :: _ => [-9]
+  | 9 :: _ => [-9]
   | _ => [-3]
   end.
